@@ -28,6 +28,10 @@ def stepLine (st : St) (line : String) : IO (St × String) := do
   | ["create", v] =>
     let ps := PState.create (v == "4") CfbVerif.Gen.DEFAULT_STREAM_MAX_BUFFER_SIZE
     pure ({ ps := ps, live := true }, "ok | " ++ tail ps .fine)
+  | ["create", v, mb, _backend] =>
+    -- a history that names its stream buffer size (`-` = default) and how its underlying file splits transfers
+    let ps := PState.create (v == "4") (mb.toNat?.getD CfbVerif.Gen.DEFAULT_STREAM_MAX_BUFFER_SIZE)
+    pure ({ ps := ps, live := true }, "ok | " ++ tail ps .fine)
   | ["load", path] =>
     -- start from a file somebody else wrote (C04)
     let img ← IO.FS.readBinFile path
